@@ -64,6 +64,8 @@ TraceCase ==
                vec(e.perm_metrics[n]) /\ \A i \in 1..nc :
                    SameQ(e.perm_metrics[n][i], e.metrics[n][IndexOf(cls, prm[i])])>>,
           <<"C05.accuracy", ~ok \/ SameQ(e.accuracy, Accuracy(M))>>,
+          <<"C05.accuracy_in_narrow_integer_dtypes", ~ok \/
+               (SameQ(e.acc_narrow[1], Accuracy(M)) /\ SameQ(e.acc_narrow[2], Accuracy(M)))>>,
           <<"C05.shapes", ~ok \/ e.shape_ok>>,
           (* leading shape (2,3): grid [[M, M', M], [M', M', M]], M' = labels and predictions swapped *)
           <<"C05.two_leading_dimensions", ~ok \/ \A n \in DOMAIN e.stacked2 :
